@@ -1,5 +1,7 @@
 /*! Graphs contain blocks connected by streams, and run them.
  */
+#[cfg(feature = "verif_hooks")]
+use crate::verif::shim as std;
 use std::time::Instant;
 
 use crate::Result;
